@@ -810,12 +810,8 @@ class GroupBy:
             raise NotImplementedError(
                 "masking with a stepped slicer and chunked group keys is not supported"
             )
-        if mask.start is None:
-            start = 0
-        elif mask.start < 0:
-            start = len(self) + mask.start
-        else:
-            start = mask.start
+        # clamps a negative start that reaches back beyond the first row
+        start = mask.indices(len(self))[0]
 
         # find first chunk within the mask as we need it below to get the right pointers
         cum_length = 0
